@@ -1,6 +1,8 @@
 use cvx::report::Tier;
 
 fn main() {
+    // anyhow captures a backtrace per error when RUST_BACKTRACE is set (global lock, very slow)
+    std::env::set_var("RUST_LIB_BACKTRACE", "0");
     let args: Vec<String> = std::env::args().collect();
     if args.len() < 2 {
         eprintln!("usage: cvx <property|selfcheck|replay> [--tier quick|thorough] [--replay file]");
@@ -54,6 +56,8 @@ fn main() {
         p @ ("C01" | "C02" | "C03" | "C04") => cvx::checks::static_checks::run(p, tier),
         "C07" => cvx::checks::static_checks::run_c07(tier),
         "C18" => cvx::checks::c18::run(tier),
+        "C08" => cvx::checks::dyn_checks::run_c08(tier),
+        "C09" => cvx::checks::dyn_checks::run_c09(tier),
         "C17" => cvx::checks::c17::run(tier),
         other => {
             eprintln!("unknown check {}", other);
